@@ -1,6 +1,7 @@
 (* C05 — Wrapping, password-wrapping or sealing a key and undoing it returns the same key; the serialised
    form has the fixed length the format prescribes. *)
 From PV Require Import Bytes Result Oracle Local Paserk PaserkProofs BigEndian ToyOracle.
+From PV.NonVacuity Require Import Toy2.
 Local Open Scope list_scope.
 
 (* PIE, all six backends, every nonce the RNG can return *)
@@ -19,7 +20,8 @@ Theorem C05_pbkw_roundtrip : forall O, laws O -> forall P header pass params key
                length blob = pw_prefix_len P + length key + pw_tlen P.
 Proof. exact pw_roundtrip_all. Qed.
 
-(* PBKDF2 versions: the KDF step succeeds for every password and every (non-zero) iteration count *)
+(* PBKDF2 versions: the KDF step of the RustCrypto backends has no failure branch at all (it takes every
+   iteration count, 0 included — definitional); the aws-lc backend refuses exactly the count 0 *)
 Theorem C05_pbkdf2_total : forall O ver W pass salt params,
   exists pre, pw_prekey (pwA O ver W false) pass salt params = Ok pre.
 Proof. exact pwA_prekey_total'. Qed.
@@ -79,3 +81,9 @@ Print Assumptions C05_v1_pke_minimal_refuted.
 Theorem C05_premises_satisfiable : exists O, laws O.
 Proof. exact laws_satisfiable. Qed.
 Print Assumptions C05_premises_satisfiable.
+
+(* ... including the extra premise of the libsodium seal round trip (a non-zero shared secret), which the first
+   toy oracle (all-zero shared secrets) does not meet *)
+Theorem C05_sodium_premises_satisfiable : exists O, laws O /\ forall r xpk, x_mul O r xpk <> zero32.
+Proof. exists toy2. split; [exact toy2_laws|]. intros r xpk. vm_compute. discriminate. Qed.
+Print Assumptions C05_sodium_premises_satisfiable.
